@@ -14,7 +14,7 @@ from ..util import flags
 ID = "C17"
 RULE = ("base cases from the per-test generators (dyadic values). relations: (a) add a dyadic constant |c|<=1024 to all "
         "values: spike, rate_of_change, flat_line, attenuated, density; (b) negate: spike, rate_of_change, flat_line, "
-        "attenuated; (c) shift all times by a whole number of seconds in +-1e9 (across the epoch): rate_of_change, flat_line, "
+        "attenuated; (c) shift all times by a constant in +-1e9 s (across the epoch; whole seconds, and for rate / attenuated / speed also sub-second axes with fractional shifts): rate_of_change, flat_line, "
         "attenuated, speed, climatology with absolute members (spans shifted too), datetime valid_range (bounds shifted "
         "too); (d) shift data and spans together: gross_range, valid_range; (e) reverse: spike flags reverse; (f) change one "
         "observation (other value, present<->missing) at every kind of position: flags may change only inside the test's "
@@ -77,6 +77,12 @@ def relation_case(draw, tier="quick"):
             case["hi"] = None if case["hi"] is None else int(case["hi"])
         if name == "climatology":
             case["members"] = [m for m in case["members"] if not m.get("period")]
+        if name in ("roc", "attenuated", "speed") and draw(st.integers(0, 2)) == 0:
+            # sub-second instants and a shift that is not a whole number of seconds: elapsed times must not depend on
+            # where the fractional parts fall
+            case["t"] = [v + draw(st.sampled_from([0.0, 0.125, 0.5, 0.75, 0.875])) for v in case["t"]]
+            out["k"] = out["k"] + draw(st.sampled_from([0.5, 0.125, 0.875, 0.25]))
+            out["subsecond"] = True
     return out
 
 
@@ -125,7 +131,8 @@ def check_relation(out, rec):
     r1 = run(rec, name, base, rel)
     if r1 is SKIP:
         return
-    rec.note(len(set(r1)) >= 2, [f"rel={rel}", f"{rel}:{name}"] + (["two_distinct_flags"] if len(set(r1)) >= 2 else []))
+    rec.note(len(set(r1)) >= 2, [f"rel={rel}", f"{rel}:{name}"] + (["two_distinct_flags"] if len(set(r1)) >= 2 else []) +
+             (["subsecond_shift"] if out.get("subsecond") else []))
     r2 = run(rec, name, other, rel)
     if r2 is SKIP:
         return
